@@ -497,6 +497,11 @@ int main(int argc, char** argv) {
   {
     ctx.sub("gridzone");
     ctx.bound("gridzone", "all 60 x 20 grid zone designations (both cases, with/without leading zero) + A, B, Y, Z: returned point lies in that grid zone and converts back to the designation");
+    if (ctx.take()) {      // the library's own self-test of its band/row assumptions must pass
+      Ctx::Case cs(ctx);
+      Out o = guard([&] { MGRS::Check(); }, true);
+      if (o.outcome != 0) ctx.fail("MGRS::Check()", "self-test failed: " + o.what, {{"kind", "self-check"}});
+    }
     for (int zone = 0; zone <= 60; ++zone) {
       if (!ctx.take()) continue;
       for (int band = 0; band < (zone ? 20 : 4); ++band) {
